@@ -20,7 +20,10 @@
    short body of  "a" (text) | "P" ({{{1}}}) | "C1".."C3" (a call without arguments; a callee
    above NT does not exist) and, with Growth, "D1".."D3" (a call that passes {{{1}}}{{{1}}}: the
    argument DOUBLES on every level — the way a wiki page buys unbounded memory from a recursive
-   template); pages may then start the recursion with a block argument ("S1": {{T1|A}}, A being
+   template) and, with PF, "I1".."I3" (a call of T1..T3 inside the lazily evaluated branch argument
+   of a parser function — {{#ifexpr:1|{{T1}}}}, {{#if:1|{{T1}}}}, {{#ifeq:1|1|{{T1}}}},
+   {{#switch:1|1={{T1}}}}, {{#iferror:{{T1}}}}: one more flatten frame, the branch is flattened
+   into a buffer of its own and appended; TemplateRecursion must pass through it); pages may then start the recursion with a block argument ("S1": {{T1|A}}, A being
    BlockSize characters of text).  Self- and mutual recursion are ordinary universes here.  The
    parser collapses a one-element body to that element and merges adjacent text, so bodies are
    kept in that canonical form.
@@ -39,6 +42,7 @@ CONSTANTS NT,            \* templates in the universe (1..3)
           MaxBody,       \* items per template body
           Limit,         \* recursion_limit
           FewPages,      \* TRUE: three pages only (a call, text + call, two calls) — for the larger universes
+          PF,            \* TRUE: calls inside a lazily evaluated parser-function branch are part of the alphabet
           Growth,        \* TRUE: doubling calls and block arguments are part of the alphabet
           BlockSize,     \* characters in the block "A"
           Cap,           \* 262144: the longest argument value
@@ -54,13 +58,15 @@ vars == <<univ, page, stack, count, bufs, exc, log, started, escaped, capped>>
 Calls  == {"C1", "C2", "C3"}
 Dbls   == {"D1", "D2", "D3"}
 Starts == {"S1", "S2"}
+Wraps  == {"I1", "I2", "I3"}
+CItem(t) == CASE t = 1 -> "C1" [] t = 2 -> "C2" [] OTHER -> "C3"
 Items == {"a", "P"} \cup Calls \cup (IF Growth THEN {"D1", "D2"} ELSE {})
-Callee(it) == CASE it \in {"C1", "D1", "S1"} -> 1 [] it \in {"C2", "D2", "S2"} -> 2 [] it \in {"C3", "D3"} -> 3 [] OTHER -> 0
+Callee(it) == CASE it \in {"C1", "D1", "S1", "I1"} -> 1 [] it \in {"C2", "D2", "S2", "I2"} -> 2 [] it \in {"C3", "D3", "I3"} -> 3 [] OTHER -> 0
 IsCall(it) == it \in Calls \cup Dbls \cup Starts
 ArgOf(it)  == IF it \in Dbls THEN "dbl" ELSE IF it \in Starts THEN "block" ELSE "none"
 Canonical(b) == \A i \in 1..(Len(b) - 1) : ~(b[i] = "a" /\ b[i + 1] = "a")
 BodiesOver(S, n) == {b \in UNION {[1..k -> S] : k \in 0..n} : Canonical(b)}
-TemplateItems == IF Growth THEN (IF NT = 1 THEN {"a", "P", "C1", "D1"} ELSE {"a", "P", "C1", "C2", "D1", "D2"}) ELSE {"a", "P", "C1", "C2", "C3"}
+TemplateItems == IF PF THEN (IF NT = 1 THEN {"a", "C1", "I1"} ELSE {"a", "C1", "C2", "I1", "I2"}) ELSE IF Growth THEN (IF NT = 1 THEN {"a", "P", "C1", "D1"} ELSE {"a", "P", "C1", "C2", "D1", "D2"}) ELSE {"a", "P", "C1", "C2", "C3"}
 PageItems == IF Growth THEN (IF NT = 1 THEN {"a", "C1", "S1"} ELSE {"a", "C1", "S1", "S2"}) ELSE {"a", "C1", "C2"}
 Bodies == BodiesOver(TemplateItems, MaxBody)
 Pages  == IF FewPages THEN {<<"C1">>, <<"a", "C1">>, <<"C1", "C2">>}
@@ -85,7 +91,9 @@ D == Len(stack)
 (* frames.  env: index of the call frame whose arguments are in scope (0: none).  buf: the buffer
    the frame writes to, mark: its length when the frame was entered.  A call frame carries its
    argument: arg in {"none","block","dbl"}, cached / val once the callee has used it.  A sequence
-   frame with forarg = c evaluates the argument of call frame c into a buffer of its own.        *)
+   frame with forarg = c evaluates the argument of call frame c into a buffer of its own; so does a
+   "wrap" frame (a parser function flattening the branch it selected).                           *)
+Own(f) == f.forarg # 0 \/ f.k = "wrap"
 Frame(k, body, t, env, buf, arg, forarg) ==
   [k |-> k, body |-> body, pc |-> 1, t |-> t, st |-> 0, env |-> env, buf |-> buf,
    mark |-> IF buf > Len(bufs) THEN 0 ELSE Len(bufs[buf]),
@@ -108,16 +116,18 @@ HasPending ==
   ELSE IF stack = <<>> THEN FALSE
   ELSE \/ Top.k = "seq" /\ Top.pc <= Len(Top.body)
        \/ Top.k = "call" /\ Top.st = 0 /\ Exists(Top.t) /\ univ[Top.t] # <<>>
+       \/ Top.k = "wrap" /\ Top.st = 0
        \/ NeedsEval
 Pending ==
   IF ~started THEN ObjOf(page)
   ELSE IF Top.k = "seq" THEN Item(Top.body[Top.pc])
   ELSE IF Top.k = "call" THEN ObjOf(univ[Top.t])
+  ELSE IF Top.k = "wrap" THEN Item(CItem(Top.t))
   ELSE SeqO(ArgExpr)
 Advanced ==
   IF ~started THEN stack
   ELSE IF Top.k = "seq" THEN Append(Below, [Top EXCEPT !.pc = @ + 1])
-  ELSE IF Top.k = "call" THEN Append(Below, [Top EXCEPT !.st = 1])
+  ELSE IF Top.k \in {"call", "wrap"} THEN Append(Below, [Top EXCEPT !.st = 1])
   ELSE Append(Below, [Top EXCEPT !.st = 2])            \* the parameter waits for its value
 IsText(o) == o.k = "item" /\ o.it = "a"
 ForArg == started /\ stack # <<>> /\ Top.k = "param"   \* the pending object is an argument expression
@@ -126,6 +136,7 @@ NewFrame(o) ==
   IF ForArg THEN Frame("seq", o.body, 0, stack[Top.env].env, Len(bufs) + 1, "none", Top.env)
   ELSE IF o.k = "seq" THEN Frame("seq", o.body, 0, CurEnv, CurBuf, "none", 0)
   ELSE IF IsCall(o.it) THEN Frame("call", <<>>, Callee(o.it), CurEnv, CurBuf, ArgOf(o.it), 0)
+  ELSE IF o.it \in Wraps THEN Frame("wrap", <<>>, Callee(o.it), CurEnv, Len(bufs) + 1, "none", 0)
   ELSE Frame("param", <<>>, 0, CurEnv, CurBuf, "none", 0)
 
 Put(b, v) == [bufs EXCEPT ![b] = @ \o v]
@@ -143,7 +154,7 @@ Text == /\ exc = "none" /\ HasPending /\ IsText(Pending)
 
 \* flatten(node) below the limit: a new frame (and a new buffer for an argument)
 Enter == /\ exc = "none" /\ HasPending /\ ~IsText(Pending) /\ count <= Limit
-         /\ bufs' = IF ForArg THEN Append(bufs, <<>>) ELSE bufs
+         /\ bufs' = IF ForArg \/ (Pending.k = "item" /\ Pending.it \in Wraps) THEN Append(bufs, <<>>) ELSE bufs
          /\ stack' = Append(Advanced, NewFrame(Pending))
          /\ count' = count + 1 /\ started' = TRUE
          /\ log' = IF Pending.k = "item" /\ IsCall(Pending.it) THEN Append(log, <<Callee(Pending.it), count + 1>>) ELSE log
@@ -164,9 +175,15 @@ ParamOut == /\ exc = "none" /\ started /\ stack # <<>> /\ Top.k = "param" /\ Top
 
 Complete == /\ started /\ stack # <<>> /\ ~HasPending
             /\ (Top.k = "param" => Top.st = 1)
-Leave == /\ exc = "none" /\ Complete /\ Top.forarg = 0
+Leave == /\ exc = "none" /\ Complete /\ ~Own(Top)
          /\ stack' = Below /\ count' = count - 1
          /\ UNCHANGED <<univ, page, bufs, exc, log, started, escaped, capped>>
+
+\* the parser function appends the branch it has flattened
+LeaveWrap == /\ exc = "none" /\ Complete /\ Top.k = "wrap"
+             /\ bufs' = SubSeq(Put(Top.buf - 1, bufs[Top.buf]), 1, Len(bufs) - 1)
+             /\ stack' = Below /\ count' = count - 1
+             /\ UNCHANGED <<univ, page, exc, log, started, escaped, capped>>
 
 \* the argument has been flattened: within the cap it is cached in the call frame and handed to
 \* the waiting parameter, beyond the cap ArgumentList.get raises MemoryLimitError
@@ -187,7 +204,7 @@ LeaveArg == /\ exc = "none" /\ Complete /\ Top.forarg # 0
             /\ capped' = (capped \/ (CapByName /\ Size(bufs[Top.buf]) > Cap))
             /\ UNCHANGED <<univ, page, log, started, escaped>>
 
-PopBufs == IF Top.forarg # 0 THEN SubSeq(bufs, 1, Len(bufs) - 1) ELSE bufs
+PopBufs == IF Own(Top) THEN SubSeq(bufs, 1, Len(bufs) - 1) ELSE bufs
 
 \* TemplateRecursion passes a frame deeper than SwallowDepth ('finally' still decrements)
 Unwind == /\ exc = "rec" /\ stack # <<>> /\ count > SwallowDepth
@@ -220,7 +237,7 @@ Escape == /\ exc # "none" /\ stack = <<>> /\ ~escaped
           /\ UNCHANGED <<univ, page, stack, count, bufs, exc, log, started, capped>>
 
 Finished == started /\ stack = <<>> /\ exc = "none"
-Next == Text \/ Enter \/ Raise \/ ParamOut \/ Leave \/ LeaveArg \/ Unwind \/ Swallow \/ UnwindMem \/ CatchMem \/ Escape
+Next == Text \/ Enter \/ Raise \/ ParamOut \/ Leave \/ LeaveWrap \/ LeaveArg \/ Unwind \/ Swallow \/ UnwindMem \/ CatchMem \/ Escape
 Spec == Init /\ [][Next]_vars /\ WF_vars(Next)
 
 -----------------------------------------------------------------------------
@@ -229,7 +246,8 @@ CountIsDepth == Decrement => count = Len(stack)
 NoEscape     == ~escaped /\ ~(exc # "none" /\ stack = <<>>)
 BufsOK       == /\ Len(bufs) >= 1
                 /\ \A i \in 1..Len(stack) : stack[i].buf <= Len(bufs) /\ stack[i].mark <= Len(bufs[stack[i].buf])
-                /\ Len(bufs) = 1 + Cardinality({i \in 1..Len(stack) : stack[i].forarg # 0})
+                /\ Len(bufs) = 1 + Cardinality({i \in 1..Len(stack) : Own(stack[i])})
+                /\ (stack # <<>> => Top.buf = Len(bufs))
 \* no argument value ever held exceeds the cap
 ArgBound     == \A i \in 1..Len(stack) : stack[i].cached => Size(stack[i].val) <= Cap
 \* a TemplateRecursion is only ever cleared by a frame at depth <= 2
